@@ -160,7 +160,10 @@ def check_og(ctx, pc, h, p, L, R, tag, rng, state_cls):
     ctx.check(bool(np.all(c_L >= 0)), "optimal_grouping:negative_strength", "negative strength", wit)
     ctx.close("og_total_cn2", float(np.sum(c_L.astype(float))), tot, 1e-12 * tot, "optimal_grouping:total_cn2:" + ("int_heights" if h.dtype.kind in "iu" else "float_heights"), wit, scale=tot)
     ctx.check(bool(np.all(np.isin(h_L.astype(float), h.astype(float)))), "optimal_grouping:heights_are_input_heights", "a returned height is not an input height", wit)
-    ctx.check(bool(np.all(np.diff(h_L.astype(float)) > 0)) if L > 1 else True, "optimal_grouping:order", "returned heights not increasing", wit)
+    if tag == "tied_heights":
+        ctx.check(bool(np.all(np.diff(h_L.astype(float)) >= 0)) if L > 1 else True, "optimal_grouping:order", "returned heights decrease", wit)
+    else:
+        ctx.check(bool(np.all(np.diff(h_L.astype(float)) > 0)) if L > 1 else True, "optimal_grouping:order", "returned heights not increasing", wit)
     groups = groups_from_strengths(p, c_L)
     if not ctx.check(groups is not None and all(len(g) > 0 for g in groups), "optimal_grouping:not_a_contiguous_partition",
                      "returned strengths are not the sums of a contiguous partition of the input", wit):
@@ -284,6 +287,12 @@ def run(ctx, spec):
         h, p, w, kinds = gen_profile(rng, N)
         L = int(rng.integers(1, N))
         check_el(ctx, pc, h, p, w, L, "generic", rng)
+    # profiles listed top-down or in arbitrary order (the slabs are defined by min / max, not by position)
+    for i in range(max(4, spec["n_el"] // 10)):
+        N = int(rng.integers(3, 80))
+        h, p, w, kinds = gen_profile(rng, N)
+        perm = np.arange(N)[::-1] if i % 2 == 0 else rng.permutation(N)
+        check_el(ctx, pc, h[perm], p[perm], w[perm], int(rng.integers(1, N)), "unsorted", rng)
     # every L for small N
     N = int(rng.integers(3, spec["exhaustive_L_upto"] + 1))
     h, p, w, kinds = gen_profile(rng, N)
@@ -301,6 +310,17 @@ def run(ctx, spec):
             st = hostile_rng(rng, (i + L) % 4)
             ctx.count("global_rng_hostile_states")
             check_og(ctx, pc, h, p, L, R, "int_heights" if h.dtype.kind in "iu" else "float_heights", rng, st)
+    # tied altitudes (two layers reported at the same height): every guarantee must still hold
+    for i in range(3 if spec["n_og"] <= 8 else 40):
+        N = int(rng.integers(4, 14 if nojit else 24))
+        h, p, w, kinds = gen_profile(rng, N, kind=int(rng.choice([0, 4])))
+        h = np.sort(np.round(h / 1500.0) * 1500.0)         # many ties
+        if rng.random() < 0.5:
+            p = np.round(p / p.max() * 9) + 1               # small integers: ties in the cost as well
+        L = int(rng.integers(1, N))
+        st = hostile_rng(rng, int(rng.integers(0, 4)))
+        ctx.count("global_rng_hostile_states")
+        check_og(ctx, pc, h, p, L, int(rng.integers(0, 4)), "tied_heights", rng, st)
     # larger regular profiles with equal strengths and several random restarts (the result must never be worse than the
     # equal split, whichever restart came last)
     if not nojit:
